@@ -1835,10 +1835,11 @@ def union_to_record(unionarray, anonymous):
                     seen.add(anonymous)
                     all_names.append(anonymous)
 
-        missingarray = ak.layout.IndexedOptionArray64(
-            ak.layout.Index64(nplike.full(len(unionarray), -1, dtype=np.int64)),
-            ak.layout.EmptyArray(),
-        )
+        def missingarray(length):
+            return ak.layout.IndexedOptionArray64(
+                ak.layout.Index64(nplike.full(length, -1, dtype=np.int64)),
+                ak.layout.EmptyArray(),
+            )
 
         all_fields = []
         for name in all_names:
@@ -1850,12 +1851,12 @@ def union_to_record(unionarray, anonymous):
                             union_contents.append(layout.field(key))
                             break
                     else:
-                        union_contents.append(missingarray)
+                        union_contents.append(missingarray(len(layout)))
                 else:
                     if name == anonymous:
                         union_contents.append(layout)
                     else:
-                        union_contents.append(missingarray)
+                        union_contents.append(missingarray(len(layout)))
 
             all_fields.append(
                 make_union(
